@@ -139,6 +139,63 @@ def r_rectab(repo, tier):
             out.report(SREC, "SRECline.size", "S%d has no row" % k, where, "record type S%d has no entry in the address-width table: a line starting with 'S%d' raises %s, which SRECline.set does not convert into SRECError" % (k, k, "KeyError"))
         elif b is not None and tab[k] != b:
             out.report(SREC, "SRECline.size", "S%d address digits %d" % (k, tab[k]), where, "S%d records carry a %d-digit address field, the table says %d" % (k, b, tab[k]))
+    # the table is total over the *parsed range* of the record type: self.SRECtype = int(line[a:b], BASE) can take BASE**(b-a) values
+    fs = repo.func(SREC, "SRECline.set")
+    parsed = None
+    for n in ast.walk(fs.node):
+        if isinstance(n, ast.Assign) and norm(n.targets[0]) == "self.SRECtype" and isinstance(n.value, ast.Call) and norm(n.value.func) == "int" and n.value.args:
+            a0 = n.value.args[0]
+            base = n.value.args[1].value if len(n.value.args) > 1 and isinstance(n.value.args[1], ast.Constant) else (10 if len(n.value.args) == 1 else None)
+            width = None
+            if isinstance(a0, ast.Subscript) and isinstance(a0.slice, ast.Slice) and isinstance(a0.slice.lower, ast.Constant) and isinstance(a0.slice.upper, ast.Constant):
+                width = a0.slice.upper.value - a0.slice.lower.value
+            parsed = (n, base, width)
+    if parsed is None:
+        raise AnalysisError("R-RECTAB: SRECline.set no longer parses self.SRECtype with int(line[a:b], base)")
+    pn, base, width = parsed
+    caught = set()
+    for t in ast.walk(fs.node):
+        if isinstance(t, ast.Try) and any(x is pn for x in ast.walk(t)):
+            for h in t.handlers:
+                if h.type is None:
+                    caught.add("Exception")
+                else:
+                    caught |= {norm(e) for e in (h.type.elts if isinstance(h.type, ast.Tuple) else [h.type])}
+    lookup_err = "IndexError" if not isinstance(tab, dict) or all(isinstance(k, int) for k in tab) and sorted(tab) == list(range(len(tab))) else "KeyError"
+    protected = bool(caught & {"Exception", "BaseException", "LookupError", "IndexError", "KeyError"})
+    out.inst("SREC::type-range", {"parse": norm(pn), "base": base, "digits": width, "exceptions_converted": sorted(caught)})
+    if base is None or width is None:
+        out.undecide(SREC, "SRECline.set", norm(pn), "base or digit count of the record-type parse is not a constant")
+    elif not protected:
+        # a range check on the parsed value between the parse and the lookup narrows the range (assert / if ...: raise)
+        limit = base ** width
+        unknown_guard = None
+        for t in ast.walk(fs.node):
+            test = t.test if isinstance(t, ast.Assert) or (isinstance(t, ast.If) and t.body and isinstance(t.body[-1], ast.Raise)) else None
+            if test is None or "self.SRECtype" not in norm(test) or t.lineno < pn.lineno:
+                continue
+            neg = isinstance(t, ast.If)
+            cmpn = test
+            if isinstance(cmpn, ast.Compare) and len(cmpn.ops) == 1 and norm(cmpn.left) == "self.SRECtype" and isinstance(cmpn.comparators[0], ast.Constant) and isinstance(cmpn.comparators[0].value, int):
+                k, o = cmpn.comparators[0].value, cmpn.ops[0]
+                if not neg and isinstance(o, ast.Lt):
+                    limit = min(limit, k)
+                elif not neg and isinstance(o, ast.LtE):
+                    limit = min(limit, k + 1)
+                elif neg and isinstance(o, ast.GtE):
+                    limit = min(limit, k)
+                elif neg and isinstance(o, ast.Gt):
+                    limit = min(limit, k + 1)
+                else:
+                    unknown_guard = norm(test)
+            else:
+                unknown_guard = norm(test)
+        missing = [v for v in range(limit) if v not in tab]
+        if missing and unknown_guard:
+            out.undecide(SREC, "SRECline.set", norm(pn), "the parsed record type is range-checked by `%s`, which this rule cannot evaluate" % unknown_guard)
+            missing = []
+        if missing:
+            out.report(SREC, "SRECline.set", "record type range %d**%d" % (base, width), pn.lineno, "the record type is parsed as %d digit(s) in base %d, so it can be %s; the address-width table has no row for these and the lookup error is not among the exceptions SRECline.set converts into SRECError (%s)" % (width, base, ", ".join(str(v) for v in missing[:8]), ", ".join(sorted(caught)) or "none"))
     # constants
     for rel, block, refk in ((HEX, "HEXcode", "hex_record_types"), (SREC, "SREC", "srec_record_types")):
         m = repo.mod(rel)
